@@ -658,6 +658,35 @@ def run(ctx):
     ctx.require_min("SC-FACTOR", 9)
     ctx.require_min("KAPPA-RANGE", 5)
     ctx.require_min("SC-LOCAL", 6)
+    # sibling branches of _current_source_current: the converter-current angle is taken from the network impedance alone
+    # (before the fault impedance is added to the diagonal) in the Zbus branch and in the LU branch alike
+    fcs = ctx.repo.func(f"{CUR}:_current_source_current")
+    brs = [n for n in walk_no_nested(fcs.node) if isinstance(n, ast.If) and "inverse_y" in norm(n.test)]
+    if len(brs) != 1:
+        ctx.fail("_current_source_current: inverse_y dispatch not found")
+    for nm, blk in (("zbus", brs[0].body), ("lu", brs[0].orelse)):
+        ang = [st for st in ast.walk(ast.Module(body=blk, type_ignores=[])) if isinstance(st, ast.Assign) and "PHI_IKCV_DEGREE" in norm(st.targets[0]) and "diagZ" in norm(st.value)]
+        add = [st for st in blk if isinstance(st, ast.AugAssign) and norm(st.target).replace(" ", "") == "diagZ[bus_idx]" and "fault_impedance" in norm(st.value)]
+        ok = len(ang) == 1 and len(add) == 1 and ang[0].lineno < add[0].lineno
+        ctx.ob("SC-SIBLING", f"{CUR}::_current_source_current::angle-before-fault-impedance:{nm}", ok,
+               "angle from the network impedance, fault impedance added afterwards" if ok else
+               "the fault impedance is added to the diagonal before the converter-current angle is derived from it (the other solver branch "
+               "does it afterwards): results depend on inverse_y and on the other faulted buses", fcs.loc(add[0]) if add else fcs.loc())
+    # every network of the power-station loop is solved with the factorisation of ITS admittance matrix
+    fcc = ctx.repo.func("pandapower.shortcircuit.calc_sc:_calc_current")
+    fac = [st for st in ast.walk(fcc.node) if isinstance(st, ast.Assign) and "ybus_fact" in norm(st.targets[0])]
+    ok = len(fac) == 1 and norm(fac[0].targets[0]).replace(" ", "").replace('"', "'").startswith("this_ppci['internal']") and \
+        norm(fac[0].value).replace(" ", "").replace('"', "'").startswith("factorized(this_ppci['internal']['Ybus']")
+    ctx.ob("SC-SIBLING", "pandapower.shortcircuit.calc_sc::_calc_current::own-factorisation", ok,
+           "ybus_fact = factorized(Ybus of the same ppci)" if ok else
+           "the LU factorisation is not (only) computed from the admittance matrix of the ppci it is stored in: the corrected power-station "
+           "networks are solved with the matrix of another network when inverse_y=False", fcc.loc(fac[0]) if fac else fcc.loc())
+    # a fault impedance with only a resistive or only a reactive part is a fault impedance
+    fi = ctx.repo.func(f"{IMP}:_calc_rx")
+    t = next((n for n in walk_no_nested(fi.node) if isinstance(n, ast.If) and "r_fault" in names_in(n.test) and "x_fault" in names_in(n.test)), None)
+    ok = t is not None and isinstance(t.test, ast.BoolOp) and isinstance(t.test.op, ast.Or)
+    ctx.ob("SC-SIBLING", f"{IMP}::_calc_rx::fault-impedance-if-any-part", ok,
+           f"fault impedance applied when `{norm(t.test, 60) if t is not None else '?'}`", fi.loc(t) if t is not None else fi.loc())
     ctx.require_min("SC-SIBLING", 5)
 
 
@@ -669,6 +698,9 @@ def variants(repo):
     bb = "pandapower/build_bus.py"
     pc = "pandapower/shortcircuit/ppc_conversion.py"
     return [
+        V("fault impedance only with both parts", im, replace_once("if r_fault > 0 or x_fault > 0:", "if r_fault > 0 and x_fault > 0:"), "fault-impedance-if-any-part"),
+        V("angle after the fault impedance in the zbus branch", cu, in_function("_current_source_current", lambda s: s.replace("        diagZ = np.diag(Zbus).copy()  # here diagZ is not writeable\n", "        diagZ = np.diag(Zbus).copy()  # here diagZ is not writeable\n        diagZ[bus_idx] += fault_impedance\n", 1).replace("            ppci[\"bus\"][buses, PHI_IKCV_DEGREE] = -np.angle(diagZ[buses], deg=True) + extra_angle\n        diagZ[bus_idx] += fault_impedance\n        i_kss_2 = 1 / diagZ", "            ppci[\"bus\"][buses, PHI_IKCV_DEGREE] = -np.angle(diagZ[buses], deg=True) + extra_angle\n        i_kss_2 = 1 / diagZ", 1)), "angle-before-fault-impedance:zbus"),
+        V("one factorisation for all networks", "pandapower/shortcircuit/calc_sc.py", replace_once('this_ppci["internal"]["ybus_fact"] = factorized(this_ppci["internal"]["Ybus"].tocsc())', 'this_ppci["internal"]["ybus_fact"] = ppci_orig["internal"].setdefault("ybus_fact", factorized(this_ppci["internal"]["Ybus"].tocsc()))'), "own-factorisation"),
         V("power station correction only when a generator bus is faulted", pc, replace_once("    if np.any(ps_gen_bus_mask):\n", "    if ps_gen_bus.size > 0:\n"), "SC-K-INDEPENDENT"),
         V("min-case line resistance with the load-flow alpha", "pandapower/build_branch.py", in_function("_end_temperature_correction_factor", replace_once("        alpha = 4e-3\n    else:", "        alpha = net[element].alpha.values.astype(np.float64) if 'alpha' in net[element].columns else 4e-3\n    else:")), "SC-TEMP"),
         V("baseI without base power", cu, in_function("_calc_ikss", replace_once('* np.sqrt(3) / ppci["baseMVA"]', "* np.sqrt(3)")), "ikss-3ph-max:store:ppc.bus.IKSS1"),
